@@ -240,6 +240,9 @@ func Design(p Profile) *rapid.Generator[*m.Design] {
 		}
 		sort.Strings(fs)
 		g.d.Features = fs
+		// spelling variants of the same design (see model.Design.Style); drawn
+		// last so that the design itself does not depend on it
+		g.d.Style = rapid.Uint64().Draw(t, "style")
 		return g.d
 	})
 }
